@@ -14,6 +14,8 @@
 (*            non-ASCII, the mock's own API: outside the guarantee)        *)
 (*   Local    local declarations named like imports / template locals,     *)
 (*            unnamed parameters (generated names)                         *)
+(*   Variadic element type class of a variadic parameter x parameters      *)
+(*            before it (crossed with unroll-variadic by the harness)      *)
 (***************************************************************************)
 EXTENDS Codegen
 
@@ -339,12 +341,44 @@ ExtAll == {ExtProg("Sio", "io", ("Reader" :> Decl(<< >>, << >>, <<RdM>>)) @@ ("W
            ExtProg("Sfmt", "fmt", One("Stringer", Decl(<< >>, << >>, <<StringM>>)), "Stringer")}
 
 (* ------------------------------------------------------------------------ *)
+(* Variadic: element type class of the variadic parameter x number of        *)
+(* parameters before it (0, 1, 2: one method each, with no / two / one       *)
+(* result).  The classes are those of Sig.tla VariadicElemClass: every way   *)
+(* of spelling the empty interface (any, interface{}, an alias, local or     *)
+(* foreign), DEFINED types whose underlying type is the empty interface,     *)
+(* non-empty interfaces, type parameters under every constraint class, and   *)
+(* concrete types of every constructor.  Crossed by the harness with the     *)
+(* template and the EFFECTIVE unroll-variadic option (CodegenCfg.tla).       *)
+EmptyLit == Iface(<< >>, << >>)
+VaElems == {AnyT, EmptyLit, N("SRC", "LAnyA"), N("FX", "AnyA"), N("FY", "AnyA"), N("SRC", "LEI"), N("FX", "EI"), N("FV", "EI"),
+            Err, N("SRC", "LI"), N("FX", "I"), N("Sfmt", "Stringer"), Iface(<<StringM>>, << >>),
+            Int, Str, Unsafe, N("SRC", "LT"), N("FX", "T"), N("SRC", "LE"), N("FX", "A"), N("Stime", "Duration"),
+            Slice(AnyT), Slice(N("SRC", "LEI")), Slice(Str), Ptr(N("FX", "T")), Ptr(N("SRC", "LEI")), Arr(AnyT), Map(Str, AnyT), Chan("recv", N("FX", "EI")),
+            Fn(<<V("", AnyT)>>, <<V("", Err)>>, FALSE), Fn(<<V("", N("FX", "EI"))>>, << >>, TRUE), Struct(<< >>),
+            Inst("SRC", "LG", <<AnyT>>), Inst("FX", "G", <<N("SRC", "LEI")>>)}
+VaMethods(e, r) == <<Meth("M", <<V("xs", e)>>, << >>, TRUE),
+                     Meth("N", <<V("ctx", N("Scontext", "Context")), V("xs", e)>>, <<V("", Int), V("", Err)>>, TRUE),
+                     Meth("V", <<V("format", Str), V("n", Int), V("xs", e)>>, <<V("", r)>>, TRUE)>>
+VaProg(e) == P("variadic/" \o Show(e), "variadic", Show(e), "cs", One("I", Decl(<< >>, << >>, VaMethods(e, e))), "I")
+\* the element is (or mentions) the interface's own type parameter
+VaTpConstraints == {AnyT, Cmp, Int, Union(<<Int, Str>>), N("FC", "Ordered"), N("SRC", "LC"), StringerLit, N("Sfmt", "Stringer"),
+                    Iface(<<StringM>>, <<Cmp>>), EmptyLit, N("SRC", "LEI"), N("FX", "AnyA")}
+VaTpProg(cn, e) == P("variadic/T-" \o Show(cn) \o "/" \o Show(e), "variadic", "tp:" \o Show(cn), "cs",
+                     One("I", Decl(<<TPar("T", cn)>>, << >>, VaMethods(e, TP("T")))), "I")
+VaKV == P("variadic/KV", "variadic", "tp:two-params", "cs",
+          One("I", Decl(<<TPar("K", Cmp), TPar("V", AnyT)>>, << >>,
+                        <<Meth("M", <<V("keys", TP("K"))>>, << >>, TRUE), Meth("N", <<V("k", TP("K")), V("vals", TP("V"))>>, <<V("", TP("V")), V("", Bool)>>, TRUE)>>)), "I")
+VariadicAll == {VaProg(e) : e \in VaElems} \cup {VaTpProg(cn, TP("T")) : cn \in VaTpConstraints}
+               \cup {VaTpProg(cn, e) : cn \in {AnyT, Cmp}, e \in {Slice(TP("T")), Ptr(TP("T")), Inst("SRC", "LG", <<TP("T")>>), Fn(<<V("", TP("T"))>>, << >>, FALSE)}}
+               \cup {VaKV}
+
+(* ------------------------------------------------------------------------ *)
 \* abstraction tables the harness cross-checks against its concretisation (package names, go/types method order)
 AllPkgIds == ForeignPkgs \cup StdPkgs \cup {"TM"}
 ASSUME PrintT(<<"TABLES", ToJson([pkgnames |-> [p \in AllPkgIds |-> PkgName(p, "")], methodorder |-> MethodOrder])>>)
 
-MCQuick    == ShapeQuick \cup IdentQuick \cup CaseClash \cup PkgsQuick \cup EmbedQuick \cup GenericAll \cup MNameAll \cup LocalAll \cup MultiQuick \cup ExtAll \cup ReplAll
-MCThorough == ShapeThorough \cup IdentAll \cup CaseClash \cup PkgsThorough \cup EmbedThorough \cup GenericAll \cup MNameAll \cup LocalAll \cup MultiThorough \cup ExtAll \cup ReplAll
+MCQuick    == ShapeQuick \cup IdentQuick \cup CaseClash \cup PkgsQuick \cup EmbedQuick \cup GenericAll \cup MNameAll \cup LocalAll \cup MultiQuick \cup ExtAll \cup ReplAll \cup VariadicAll
+MCThorough == ShapeThorough \cup IdentAll \cup CaseClash \cup PkgsThorough \cup EmbedThorough \cup GenericAll \cup MNameAll \cup LocalAll \cup MultiThorough \cup ExtAll \cup ReplAll \cup VariadicAll
 \* small smoke set used while developing
 MCSmoke    == {ShapeProg(t, "d1") : t \in {Int, N("FX", "T"), Chan("recv", N("FY", "T"))}} \cup {IdentProg(x, "p1") : x \in {"io", "mock", "string"}}
 =============================================================================
